@@ -121,6 +121,7 @@ type VC struct {
 	argTerms []Term // evaluated arguments of the call whose anchored items are being applied
 	privSlices map[types.Object]bool // private local slices of the function under verification (private.go)
 	inSpec   int // > 0 while a specification expression is being evaluated (no code-level checks)
+	resultGoTypesOverride []types.Type // Go types of result0.. for return-statement anchors
 }
 
 func (vc *VC) cur() *callFrame { return vc.frames[len(vc.frames)-1] }
